@@ -22,6 +22,11 @@ def obligations(tier):
             sts = keep
         for pairs, base, k in sts:
             obs.append(dict(id=f"quotes {[(NAMES[a], NAMES[b]) for a, b in pairs]} base={None if base is None else NAMES[base]}", pairs=pairs, base=base, k=k, st="none"))
+    # markets of up to 12 currencies (the size the property names): representative shapes only
+    sizes = (6, 9, 12) if tier == "quick" else (6, 7, 8, 9, 10, 11, 12, 13)
+    variants = ("chain", "star", "random") if tier == "quick" else ("chain", "star", "star_last", "caterpillar", "random")
+    for nm, pairs, base, k in big_structures(sizes, variants):
+        obs.append(dict(id=f"large market {nm} quotes {[(NAMES[a], NAMES[b]) for a, b in pairs]} base={None if base is None else NAMES[base]}", pairs=pairs, base=base, k=k, st="none"))
     # settlement consistency on a fixed 3-currency chain
     for st in ("all_same", "first_none_rest_some", "first_some_rest_none", "different", "all_same_symbolic"):
         obs.append(dict(id=f"settlement {st} on chain", pairs=[(0, 1), (1, 2)], base=None, k=3, st=st))
@@ -64,6 +69,7 @@ def one(m, S, ob, acc):
         res = Enum("Result", "Aborted", 2, [])
     # a base that no quote mentions makes the count wrong (k counts it)
     props = [("accepted exactly for spanning trees with consistent settlement", (res.variant == "Ok") == valid)]
+    soft = []
     exp = {}
     if res.variant == "Ok" and valid:
         kind, arr, f = array_of(S, res.fields[0])
@@ -86,6 +92,7 @@ def one(m, S, ob, acc):
                 el = arr.data[order.index(a) * ncur + order.index(b)]
                 real = el if isinstance(el, F) else parts(S, el)["real"]
                 props.append((f"quoted pair {NAMES[a]}{NAMES[b]} returned exactly as quoted", fr_eq(real, R[i]) and (real.d is None)))
+                soft.append((f"quoted pair {NAMES[a]}{NAMES[b]} reaches the matrix without any floating-point operation (bit-exact)", not real.ar))
     props.append(("no division by zero", z3.And(*m.div_guards) if m.div_guards else True))
 
     def replay(model):
@@ -121,10 +128,34 @@ def one(m, S, ob, acc):
                         out["mismatch"].append(f"{prof}: quoted pair {names[a]}{names[b]} not returned exactly ({snap['rates'][a][b]['real']} vs {env[f'r{kk}']})")
         out["reproduced"] = bool(out["mismatch"])
         return out
+    def pool_replay(model):
+        # doubles whose reciprocal of the reciprocal, or product with a neighbour's quotient, is not the double itself
+        pool = [49.0, 14.07, 0.1, 3.0, 1.1e-5, 123456.789, 0.7, 1.0 / 3.0, 5e-324 * 2 ** 60, 98.6]
+        names = [NAMES[x] for x in range(ncur)]
+        out = {"scenario": None, "mismatch": [], "native": {}, "reproduced": False}
+        for shift in range(len(pool)):
+            vals = [pool[(i + shift) % len(pool)] for i in range(q)]
+            sc = {"kind": "fx", "names": names, "quotes": [quote_json(a, b, vals[i], None) for i, (a, b) in enumerate(pairs)], "base": None if base is None else NAMES[base], "ops": []}
+            for prof in ("dev", "release"):
+                o = native_run([sc], prof)[0]
+                if o.get("panic") or "err" in o:
+                    continue
+                snap = o["steps"][0]
+                for kk, (a, b) in enumerate(pairs):
+                    got = snap["rates"][a][b]["real"]
+                    if got != vals[kk]:
+                        out["mismatch"].append(f"{prof}: quoted pair {names[a]}{names[b]} not returned exactly (native {got!r} vs quoted {vals[kk]!r})")
+                        out["scenario"] = sc; out["native"][prof] = o
+            if out["mismatch"]:
+                break
+        out["reproduced"] = bool(out["mismatch"])
+        return out
     if aborted:
         chk.add("try_new must return Ok or Err, never abort: " + aborted, False, replay)
         return chk
     add_props(chk, props, replay)
+    for d_, ok_ in soft:
+        chk.add_soft(d_, ok_, pool_replay)
     return chk
 
 
@@ -163,9 +194,10 @@ def run(tier, seed):
     standard_finish(PID, ev, obs, results, tot, lambda f: {"site": "FXRates::try_new", "input_class": "tree" if "accepted" not in str(f.get("mismatch")) else "rejection"},
                     bounds={"structures": f"{len(base_obs)} canonical quote-list structures with 1..{3 if tier == 'quick' else 4} quotes: EVERY choice of quoted pairs, orientation, quote order and base (up to renaming currencies; base = none or a currency inserted first), of which {ntree} are spanning trees (2..{4 if tier == 'quick' else 5} currencies) and the rest are under/over-specified, cyclic, repeated or inverse pairs",
                             "rates": "symbolic positive reals per quote", "settlement": "none / all equal (concrete and symbolic date) / mixed / different on a 3-currency chain",
-                            "outside": "more than 4 quotes (5 currencies); rounding; 6..12 currencies of the property statement"},
+                            "large_markets": "chain / star / pseudo-random tree (thorough: also star centred on the last currency and caterpillar) over " + ("6, 9, 12" if tier == "quick" else "6..13") + " currencies, mixed orientations, shuffled quote order, base none or a mid-list currency: one representative labelling each, NOT every tree of that size",
+                            "outside": "every structure beyond 4 quotes (only the representative large markets above); rounding of crosses; integer overflow of the edge counters beyond 13 currencies (the i16 edge-matrix sum overflows at 182 currencies)"},
                     rule="obligation = batch of 12 structures; per structure the real try_new / create_fx_array / mut_arrays_remaining_elements bodies run with Dual arithmetic; one validity query per structure over all n*n rates",
-                    assumptions=["structures are enumerated (finite, canonical up to renaming); the solver quantifies over the rates", "exact fraction arithmetic (reals)", "quoted pairs are compared structurally (no arithmetic applied) for exactness"])
+                    assumptions=["structures are enumerated (finite, canonical up to renaming); the solver quantifies over the rates", "exact fraction arithmetic (reals)", "quoted pairs: value identity over the reals AND an arithmetic taint (a quoted value must reach the matrix by moves only; if not, a fixed pool of doubles is replayed natively and only a reproduced bit difference is reported)"])
 
 
 def replay(path):
